@@ -14,6 +14,7 @@ import (
 
 	ledger "github.com/formancehq/ledger/internal"
 	ledgercontroller "github.com/formancehq/ledger/internal/controller/ledger"
+	"github.com/formancehq/ledger/internal/storage/common"
 	ledgerstore "github.com/formancehq/ledger/internal/storage/ledger"
 )
 
@@ -168,6 +169,32 @@ func (s *fakeStore) InsertLog(ctx context.Context, log *ledger.Log) error {
 func (s *fakeStore) ReadLogWithIdempotencyKey(ctx context.Context, ik string) (*ledger.Log, error) {
 	return nil, postgres.ErrNotFound
 }
+
+// Accounts: only GetOne by address (what the machine's `meta()` resolution needs).
+type fakeAccounts struct {
+	common.PaginatedResource[ledger.Account, any] // nil: Paginate / Count panic
+	s *fakeStore
+}
+
+func (a fakeAccounts) GetOne(ctx context.Context, q common.ResourceQuery[any]) (*ledger.Account, error) {
+	address := ""
+	if q.Builder != nil {
+		_ = q.Builder.Walk(func(operator, key string, value *any) error {
+			if key == "address" {
+				address, _ = (*value).(string)
+			}
+			return nil
+		})
+	}
+	m, ok := a.s.state.Accounts[address]
+	if !ok {
+		// the real store answers an empty account for an unknown address
+		return &ledger.Account{Address: address, Metadata: metadata.Metadata{}}, nil
+	}
+	return &ledger.Account{Address: address, Metadata: m.Copy()}, nil
+}
+
+func (s *fakeStore) Accounts() common.PaginatedResource[ledger.Account, any] { return fakeAccounts{s: s} }
 
 func sortedKeys[V any](m map[string]V) []string {
 	ks := make([]string, 0, len(m))
